@@ -71,7 +71,7 @@ class C20:
     rule = (
         "cases = histories of 25 steps over {start fg/bg/suspended job, exit of a job, jobs, jobs --posix, fg|bg|disown x {none,+,-,live n,dead n,unused n,0,-1,x,two args}, "
         "get_next_job_number, get_next_task}; every step is an evaluation judged against the A.5 model and the structural invariants; layers: main thread, alias-like worker thread "
-        "(sequential hand-off), two threads with sys.monitoring delay injection on jobs.py; distinct_nontrivial = distinct (layer, op, argument, table size, number of dead-unpurged jobs, outcome) tuples with table size >= 2"
+        "(sequential hand-off), two threads with sys.monitoring delay injection on jobs.py, and a real-process layer (interactive session on a pseudo terminal: background pipelines incl. alias stages, Ctrl-Z-suspended jobs, kill, jobs, bg, disown through the Execer); distinct_nontrivial = distinct (layer, op, argument, table size, number of dead-unpurged jobs, outcome) tuples with table size >= 2"
     )
     assumptions = [
         "stub jobs use pids=[None] and pgrp=None so that the real _continue/_send_signal paths run but signal nobody",
